@@ -675,6 +675,38 @@ class Program:
         self.adts = {norm(a["path"]): a for a in facts["adts"]}
         self._index_closures()
 
+    def const_init(self, op):
+        """what a named-constant operand (`const NONE: Option<T> = None;`) evaluates to, read off the constant's own body:
+        ("bool", v) / ("int", n) / ("variant", adt, name) / None"""
+        cdef = op.get("cdef") if isinstance(op, dict) else None
+        if not cdef:
+            return None
+        cb = self.bodies.get(cdef)
+        if cb is None or cb.kind != "const":
+            return None
+        ds = [d for d in cb.defs.get(0, []) if d[0] == "assign" and len(d[1]["lhs"]) == 1]
+        if len(ds) != 1:
+            return None
+        rv = ds[0][1]["rv"]
+        for _ in range(4):
+            if rv["k"] == "use" and rv["op"]["k"] == "const":
+                o = rv["op"]
+                if o.get("s") in ("true", "false"):
+                    return ("bool", o["s"] == "true")
+                if "int" in o:
+                    return ("int", int(o["int"]))
+                return self.const_init(o)
+            if rv["k"] == "use" and rv["op"]["k"] in ("copy", "move") and len(rv["op"]["p"]) == 1:
+                d2 = [d for d in cb.defs.get(rv["op"]["p"][0], []) if d[0] == "assign" and len(d[1]["lhs"]) == 1]
+                if len(d2) != 1:
+                    return None
+                rv = d2[0][1]["rv"]
+                continue
+            if rv["k"] == "agg" and rv.get("ak") == "adt":
+                return ("variant", norm(rv.get("def") or ""), rv.get("variant"))
+            return None
+        return None
+
     def body(self, nid):
         """Unique body with the given normalised id; None if absent; error if ambiguous."""
         bs = self.by_nid.get(nid, [])
